@@ -17,7 +17,7 @@ BEHAVIOURS = ["stdout", "file", "none", "both", "direct", "direct+stdout", "file
               "file-then-exit", "partial-then-kill-KILL", "partial-then-kill-TERM", "partial-then-kill-INT",
               "partial-then-kill-PIPE", "partial-file-then-kill-KILL"]
 SIZES = [0, 1, 4095, 4096, 65537, "big"]
-PRIORS = ["absent", "generated"]
+PRIORS = ["absent", "generated", "userfile"]
 COMMANDS = ["redo", "ifchange-parent"]
 SIGNUM = {"KILL": 9, "TERM": 15, "INT": 2, "PIPE": 13}
 
@@ -158,7 +158,12 @@ def run_case(case, tier):
             with open(os.path.join(disk.ctl, "payload"), "wb") as f:
                 f.write(data)
         prior_bytes = None
-        if case["prior"] == "generated":
+        if case["prior"] == "userfile":
+            # a file of that name made by hand before redo ever built it: every behaviour must leave it alone
+            r0 = runner.run_cmd(disk, ["redo-ifchange", "s0"], env_extra=env)
+            prior_bytes = payload(case["seed"] + 2, 555)
+            disk.write(T, prior_bytes)
+        elif case["prior"] == "generated":
             prior_bytes = payload(case["seed"] + 1, 777)
             set_behaviour(script_for("stdout", 0), prior_bytes)
             r0 = runner.run_cmd(disk, ["redo-ifchange", "parent"], env_extra=env)
@@ -169,7 +174,8 @@ def run_case(case, tier):
             # make the state directory exist without building the target
             r0 = runner.run_cmd(disk, ["redo-ifchange", "s0"], env_extra=env)
         data = payload(case["seed"], case["size"])
-        half = max(0, len(data) // 2)
+        # "killed by a signal at any point": before any output, half-way, after all of it
+        half = [0, len(data) // 2, len(data)][(case["seed"] // 7) % 3]
         set_behaviour(script_for(b, case["exit"]), data)
         env2 = dict(env, RV_HALF=str(half))
         try:
@@ -226,7 +232,16 @@ def run_case(case, tier):
             exp = ("fail", -SIGNUM[b.rsplit("-", 1)[1]])
         problems = []
         failure_mode = exp[0] == "fail"
-        if exp[0] == "ok":
+        if case["prior"] == "userfile":
+            # not redo's file: the script must not even matter (statement: "changes only when its .do exits 0" is
+            # about targets redo produces; C11 for the rest) -- checked here: untouched, nothing left behind
+            if got != prior_bytes or stat_after != stat_before:
+                problems.append("hand-made file not left as it was: bytes %s -> %s, stat %s -> %s" % (
+                    _d(prior_bytes), _d(got), stat_before, stat_after))
+            final = prior_bytes
+            failure_mode = False
+            direct = False
+        elif exp[0] == "ok":
             if res.rc != 0:
                 problems.append("command failed (rc %d) although the script succeeded with one output" % res.rc)
             if got != exp[1]:
@@ -261,8 +276,12 @@ def run_case(case, tier):
             bad = [hex(m) for m in evs if m & (IN_MODIFY | IN_CLOSE_WRITE)]
             if bad:
                 problems.append("the target name was written in place (inotify %s)" % bad[:5])
-        if failure_mode or (isinstance(exp[1], bytes) and size >= 4096 and case["prior"] == "generated"):
+        if failure_mode or case["prior"] == "userfile" or (
+                isinstance(exp[1], bytes) and size >= 4096 and case["prior"] == "generated"):
             out.nontrivial = True
+        out.events["c04:prior-%s" % case["prior"]] += 1
+        if "kill" in b:
+            out.events["c04:killpos-%d" % ((case["seed"] // 7) % 3)] += 1
         out.events["c04:%s" % b] += 1
         out.events["c04:size-%s" % case["size"]] += 1
         out.events["c04:reader-samples"] += w.reads
@@ -286,8 +305,8 @@ class Spec:
     level = "fault_enumeration"
     rule = ("Cross product of script behaviour (stdout, $3, none, both, writes $1, writes $1 and stdout, $3 then rm, "
             "stdout then exit N, $3 then exit N, half the payload on stdout / in $3 then kill -KILL/-TERM/-INT/-PIPE "
-            "$$) x payload size (0, 1, 4095, 4096, 65537, 1-2 MiB of arbitrary bytes incl. NUL / non-UTF-8) x prior "
-            "state (absent, previously generated with other content) x command (redo T, redo-ifchange parent) = 336 "
+            "$$, the kill placed before any output / half-way / after all of it) x payload size (0, 1, 4095, 4096, 65537, 1-2 MiB of arbitrary bytes incl. NUL / non-UTF-8) x prior "
+            "state (absent, previously generated with other content, made by hand) x command (redo T, redo-ifchange parent) = 504 "
             "combinations, each enumerated at least once in the thorough tier and sampled uniformly in quick; log "
             "capture on/off, exit code, target directory drawn at random. Oracles: the expectation table of the statement "
             "(single channel + exit 0 => exact payload; none => no file; failure/kill/both/direct => non-zero exit, "
@@ -300,7 +319,7 @@ class Spec:
                    "both would have to be caught by inotify's in-place-write signal"]
 
     def cases(self, tier):
-        return 336 if tier == "quick" else 3360
+        return 336 if tier == "quick" else 3360  # random extras beyond the enumerated cross product
 
     def strategy(self, tier):
         return cases(tier)
@@ -330,12 +349,12 @@ def _enum_worker(args):
 
 
 def run_check(tier, seed):
-    """Full cross product first (exhaustive over the 336 combinations, `rounds` times with different payloads /
+    """Full cross product first (exhaustive over the 504 combinations, `rounds` times with different payloads /
     log settings / exit codes / directories), then the Hypothesis-sampled extras."""
     import multiprocessing
     t0 = time.time()
     n = len(BEHAVIOURS) * len(SIZES) * len(PRIORS) * len(COMMANDS)
-    rounds = 2 if tier == "quick" else 12
+    rounds = 4 if tier == "quick" else 16
     known = engine.load_known()
     viol = []
     nontrivial = set()
